@@ -238,4 +238,7 @@ def check(prop, tier, seed):
     if prop == "C08":
         from . import cs          # values added to a change set
         thunks.append(lambda: cs.check("C08", tier, seed))
+        # a value destroyed twice / shown after its destruction once a destructor has panicked (fault traces)
+        from . import fault
+        thunks.append(lambda: fault.check("C08", tier, seed)[:1])
     return C.run_until_violation(prop, thunks)
